@@ -409,11 +409,11 @@ package adaptation
 //@   ensures [owned]    result == nil ==> (forall k string :: setK(annotations, k) ==> has(annL(r), k) && annL(r)[k] == plugin)
 //@   ensures [released] result == nil ==> (forall k string :: rmK(annotations, k) && !setK(annotations, k) ==> !has(annL(r), k))
 //@   ensures [lkept]    result == nil ==> (forall k string :: !rmK(annotations, k) && !setK(annotations, k) ==> has(annL(r), k) == old(has(annL(r), k)) && annL(r)[k] == old(annL(r)[k]))
-//@   ensures [view]     result == nil ==> (forall k string :: (setK(annotations, k) ==> has(annV(r), k) && annV(r)[k] == old(annotations[k]))
+//@   ensures [view]     @thorough result == nil ==> (forall k string :: (setK(annotations, k) ==> has(annV(r), k) && annV(r)[k] == old(annotations[k]))
 //@                          && (rmK(annotations, k) && !setK(annotations, k) ==> !has(annV(r), k))
 //@                          && (!rmK(annotations, k) && !setK(annotations, k) ==> has(annV(r), k) == old(has(annV(r), k)) && annV(r)[k] == old(annV(r)[k])))
 //@   ensures [reply.set]  result == nil ==> (forall k string :: setK(annotations, k) ==> has(annR(r), k) && annR(r)[k] == old(annotations[k]))
-//@   ensures [reply.rm]   result == nil ==> (forall k string :: rmK(annotations, k) ==> has(annR(r), "-" + k) && annR(r)["-" + k] == "")
+//@   ensures [reply.rm]   @thorough result == nil ==> (forall k string :: rmK(annotations, k) ==> has(annR(r), "-" + k) && annR(r)["-" + k] == "")
 //@   ensures [reply.gone] result == nil ==> (forall k string :: rmK(annotations, k) && !setK(annotations, k) ==> !has(annR(r), k))
 //@   ensures [rkept]    result == nil ==> (forall j string :: !setK(annotations, j) && !rmK(annotations, j) && !(markedK(j) && old(has(annotations, j))) ==> has(annR(r), j) == old(has(annR(r), j)) && annR(r)[j] == old(annR(r)[j]))
 // -- loop 1: split off the removals
